@@ -75,6 +75,19 @@ def gen_one(r, i, tier):
     ops = [("new", spec)]
     if r.random() < 0.3:
         ops += [("new", spec)] + base.fill_ops(1, s[:1])
+    if i % 5 == 4:
+        # a tree that was filled (and checked) on its own becomes part of a new collection together
+        # with one of its inner nodes: Branch(h, h.<inner node>).  The new root aliases pool entry 0,
+        # so only the (rejected) fills of the new root follow.
+        ops = [("new", spec)] + base.fill_ops(0, s[:r.randint(0, 2)])
+        ops.append(("graft", 0, list(p1)))
+        root = 1
+        ops += base.fill_ops(root, s)
+        if any("q" in s_ for s_ in gen.walk(spec)) and not base.has_kind(spec, ["Average", "Deviate"]):
+            rows = [[float(v) if not isinstance(v, str) else v for v in d]
+                    for d, _ in base.small_stream(r, spec, 2, [1.0], cats=["a", "b", "zz"])]
+            ops.append(("fillnp", root, rows, [1.0 for _ in rows]))
+        return {"ops": ops, "meta": {"shared": True, "graft": root}}
     if shared:
         ops.append(("share", 0, list(p1), list(p2)))
     if i % 3 == 2 and not base.has_kind(spec, ["Average", "Deviate"]) and any("q" in s_ for s_ in gen.walk(spec)):
@@ -101,11 +114,13 @@ def oracle(p, run, exact):
     obs = run["obs"]
     fails = []
     before = None
+    shared_now = False
     for i, (o, ob) in enumerate(zip(p["ops"], obs)):
-        if o[0] == "share":
+        if o[0] in ("share", "graft"):
             before = ob[1:ob.index(-777)]
-        if o[0] in ("fill", "fillnp") and o[1] == 0:
-            if meta["shared"]:
+            shared_now = True
+        if o[0] in ("fill", "fillnp") and o[1] == meta.get("graft", 0):
+            if meta["shared"] and shared_now:
                 if ob[0] != 1:
                     fails.append({"clause": "filling a tree with a shared aggregator raises", "op": i,
                                   "diff": "fill returned normally (the shared node is filled twice per datum)"})
@@ -137,3 +152,18 @@ def cycle_probe():
 
 def extra_evidence(progs, impl):
     return {"cycle_probe": cycle_probe() or "ContainerException raised"}
+
+
+def replay_known(kf):
+    """C16-shared-after-checked-fill: sharing installed by assignment after the root was checked"""
+    if kf.get("id") != "C16-shared-after-checked-fill":
+        return False
+    import histogrammar as hg
+    b = hg.Branch(hg.Sum(lambda d: d), hg.Sum(lambda d: d))
+    b.fill(1.0)
+    b.values = (b.values[0], b.values[0])
+    try:
+        b.fill(2.0)
+    except hg.defs.ContainerException:
+        return False
+    return b.values[0].entries == 3.0
